@@ -41,7 +41,9 @@ PROPS = {
             "multiply_thresholds / scale_tax_scales: positive factor; add_tax_scale: the added scale has non-negative thresholds (a zero upper threshold reads as no upper bound in combine_bracket); inverse: first threshold 0, rates below 1",
         ],
         "native_standins": "contracts.c09_transforms:NATIVE_STANDINS",
-        "not_decided": ["to_average / to_marginal are not under contract (float('Inf') thresholds are outside the list model): bounded stand-in on the real code only",
+        "not_decided": ["to_average / to_marginal: proved for scales with at least one bracket and finite thresholds 0 <= t_0 < t_1 < ...; negative thresholds and the empty scale are outside; "
+                        "float('inf') is an unspecified real constant above every finite threshold (arithmetic on it is not modelled); a structurally different but tax-equivalent result "
+                        "(e.g. equal-rate brackets merged) would fail the structural clauses",
                         "helpers.combine_tax_scales (parameter-node iteration) is not under contract; it only calls add_tax_scale on a scale starting with (0, 0)",
                         "the decimals option of multiply_thresholds"],
     },
@@ -112,7 +114,9 @@ PROPS = {
             "0 <= eid[i] < count for every person (well-formed membership)",
         ],
         "bounded": [],
-        "not_decided": ["get_rank, reduce with reducers other than maximum / minimum / logical_and: not under contract in this version",
+        "not_decided": ["reduce with reducers other than maximum / minimum / logical_and: not under contract in this version",
+                        "get_rank: 'the ranks of the m members concerned are a permutation of 0..m-1' is proved as pairwise distinct + non-negative + downward closed (equivalent for finite sets; "
+                        "the equivalence itself is not machine-checked here); a population without persons (numpy.max of nothing raises) and a projector given as entity are outside",
                         "the shortcut resolution of projectors (get_projector_from_shortcut, __getattr__ delegation)"],
     },
     "C15": {
